@@ -22,8 +22,18 @@ def limb_structured(rng, count, maxbits=256):
     while len(out) < count:
         lb = rng.choice((64, 64, 32, 32, 16, 8))
         n = maxbits // lb
-        kind = rng.choice(("lowzero", "lowzero", "highzero", "single", "pattern", "lowquarter"))
+        kind = rng.choice(("lowzero", "lowzero", "highzero", "single", "pattern", "lowquarter", "carry", "borrow"))
         v = 0
+        if kind in ("carry", "borrow"):
+            # carry / borrow chains: the low j limbs all ones (v + 1 ripples through j limbs) or all zero (v - 1 does),
+            # the rest random - a hand-written multi-word increment that drops a carry shows only here
+            j = rng.randrange(1, n)
+            v = rng.getrandbits(maxbits - j * lb) << (j * lb)
+            if kind == "carry":
+                v |= (1 << (j * lb)) - 1
+            if v:
+                out.append(v)
+            continue
         for i in range(n):
             if kind == "lowzero":
                 limb = rng.getrandbits(lb // 2) << (lb // 2)
